@@ -24,7 +24,7 @@ RULE = ("(a) 17 recursive declarations + 4 of them x 8 further options beside th
         "any_of('N', None), mutual recursion through a second class, List[Optional['N']], @utype.dataclass, DataClass base, a declared "
         "__init__ on a decorated class and on a Schema) x max_depth in {None, 1, 2, 3, 4} x inputs of "
         "data-class depth 1..6 with the nested value at list index 0 / 1 / 2, mapping key 'k' / '' / '0', either union branch, plain or "
-        "wrapped in a one-element list / tuple at every level, plus self-containing dicts and lists (plain and wrapped); (b) 8 declarations "
+        "wrapped in a one-element list / tuple at every level, plus self-containing dicts and lists (plain and wrapped); (b) 9 declarations "
         "with a counting leaf x 4 strictness option sets x depth 1..12 (chains) / 1..8 (trees) x width 1..3 x {valid, lenient-only, one "
         "invalid leaf at the bottom} and a self-containing input cut by max_depth 2..12; state = one (declaration, options, limit, "
         "input); non-trivial when the input is nested at least twice")
@@ -361,6 +361,8 @@ COST_DECLS = {
     "chain-optional": ("class N(Schema):\n{opt}    leaf: Leaf\n    nxt: Optional['N'] = None\n", "N", ["nxt"]),
     "chain-union-int": ("class N(Schema):\n{opt}    leaf: Leaf\n    nxt: Union['N', int] = 0\n", "N", ["nxt"]),
     "chain-union-int-first": ("class N(Schema):\n{opt}    leaf: Leaf\n    nxt: Union[int, 'N', None] = None\n", "N", ["nxt"]),
+    # through an exclusive-or: every alternative is probed, the single one that accepts is the result (converted once)
+    "chain-xor-int": ("class N(Schema):\n{opt}    leaf: Leaf\n    nxt: one_of('N', int) = 0\n", "N", ["nxt"]),
     "tree-list": ("class N(Schema):\n{opt}    leaf: Leaf\n    kids: List['N'] = Field(default_factory=list)\n", "N", ["kids[]"]),
     "tree-dict": ("class N(Schema):\n{opt}    leaf: Leaf\n    kids: Dict[str, 'N'] = Field(default_factory=dict)\n", "N", ["kids{}"]),
     "tree-union-collections": ("class N(Schema):\n{opt}    leaf: Leaf\n    kids: Union[List['N'], Dict[str, 'N'], None] = None\n", "N", ["kids[]"]),
